@@ -195,7 +195,7 @@ def gen_v1(rng):
                     lines.append((level, "while $x < 3"))
                     body(level + 1, depth - 1)
             else:
-                k = rng.randrange(15)
+                k = rng.randrange(18)
                 ci = lambda: " " * rng.randint(0, 10)        # continuation lines: any indentation
                 if k == 11:     # a condition continued over three physical lines, with its block
                     lines.append((level, "if $a == 1 and \\\n%s$b == 2 and \\\n%s$c == 3" % (ci(), ci())))
@@ -203,6 +203,16 @@ def gen_v1(rng):
                     if rng.random() < 0.5:
                         lines.append((level, "else"))
                         lines.append((level + 1, "bot express greeting"))
+                    continue
+                if k in (15, 16):     # the comment above `$var = ...` is the instruction of the generated action
+                    for _c in range(rng.randint(1, 3)):
+                        lines.append((level, "# %s the %s from the input." % (rng.choice(["Extract", "Guess", "Find"]),
+                                                                             rng.choice(["name", "question", "city"]))))
+                    lines.append((level, "$%s = ..." % rng.choice(["name", "q", "city"])))
+                    continue
+                if k == 17:           # a comment above an ordinary statement
+                    lines.append((level, "# just a note"))
+                    lines.append((level, "bot inform x"))
                     continue
                 s = {
                     12: '$msg = "a" + \\\n%s"b" + \\\n%s"c"' % (ci(), ci()),
@@ -276,7 +286,7 @@ def v2_edit(kind, text, S, rng, k=2):
     """Returns the edited text and the list of single edits [(offset, inserted)] it is made of."""
     ins = []
     if kind == "blank":
-        p = rng.choice([0.4, 1.0])              # some programs get a blank line at EVERY line gap
+        p = 1.0 if k == 1 else 0.4              # k = 1: a blank line at EVERY line gap
         ins = [(o + 1, rng.choice(["", "  ", "     ", " \t", "\t", "\t  "]) + "\n") for o in S if rng.random() < p]
     elif kind == "trailing_ws":
         ins = [(o, " " * rng.choice([1, 2, 5])) for o in S if rng.random() < 0.5]
@@ -327,7 +337,7 @@ def v1_edit(kind, text, rng, k=2):
         for i, l in enumerate(lines):
             prev = lines[i - 1].strip() if i else ""
             cont = prev.endswith("\\") or prev.endswith(" or")
-            if safe[i] and not cont and rng.random() < 0.4:
+            if safe[i] and not cont and rng.random() < (1.0 if k == 1 else 0.4):
                 out.append(rng.choice(["", "", "   ", "\t"]))
             out.append(l)
     elif kind in ("trailing_ws", "trailing_tab"):
@@ -656,12 +666,15 @@ def v1pre_case(content):
         return {"raw": raw, "expected": None}
     except Exception as e:  # noqa
         return {"skip": "get_numbered_lines raised " + type(e).__name__}
+    cms = None
+    if not has_cont:
+        cms = [[g["number"], None if g["comment"] is None else g["comment"].split("\n")] for g in got]
     exp = []
     for g in got:
         txt = g["text"]
         comparable = "#" not in re.sub(r'"[^"]*"', "", raw[g["number"] - 1]) if not has_cont else True
         exp.append([g["number"], g["indentation"], txt if comparable else None])
-    return {"raw": raw, "expected": exp}
+    return {"raw": raw, "expected": exp, "comments": cms}
 
 
 def worker_main(jobfile, outfile):
@@ -733,6 +746,13 @@ def worker_main(jobfile, outfile):
                             for one in ins:
                                 e1 = apply_inserts(content, [one])
                                 if parse_canon(e1, version) != base:
+                                    small = e1
+                                    break
+                        if version == "1.0" and kind_e == "blank":
+                            a = content.split("\n")
+                            for j in range(1, len(a)):                  # ONE blank line that already matters
+                                e1 = "\n".join(a[:j] + [""] + a[j:])
+                                if e1 != content and parse_canon(e1, version) != base:
                                     small = e1
                                     break
                         if version == "1.0" and kind_e in ("trailing_ws", "trailing_tab"):
@@ -1133,6 +1153,15 @@ def _v1pre_term(r):
     return f"({raw}, Some {exp})"
 
 
+def _v1cm_term(r):
+    raw = "[" + "; ".join(_coq_chars(l) for l in r["raw"]) + "]"
+    items = []
+    for n, cm in r["comments"]:
+        c = "None" if cm is None else "(Some [" + "; ".join(_coq_chars(x) for x in cm) + "])"
+        items.append(f"({n}, {c})")
+    return f"({raw}, [" + "; ".join(items) + "])"
+
+
 def classify_layout_diff(version, kind, content, edited):
     """Signature of a layout-edit sensitivity (defect class by edit kind + the line it hits)."""
     if kind == "trailing_tab":
@@ -1296,7 +1325,7 @@ def run(tier, seed, replay=None):
     for ver in ("1.0", "2.x"):
         kinds = ["blank", "trailing_ws", "trailing_tab"] + (["comment"] if ver == "2.x" else [])
         for origin, content in progs[ver]:
-            edits = [[k, 0] for k in kinds] + [["scale", k] for k in scale_ks]
+            edits = [[k, 0] for k in kinds] + [["blank", 1]] + [["scale", k] for k in scale_ks]
             lay_cases.append({"version": ver, "content": content, "origin": origin, "edits": edits,
                               "seed": rng.randrange(1 << 30)})
     for rc in replay_cases:
@@ -1383,7 +1412,7 @@ def run(tier, seed, replay=None):
             continue
         lay_stats["programs_ok"] += 1
         for kind_e, k, verdict, info in r["edits"]:
-            key = f"v{c['version'][0]}:{kind_e}" + (f"x{k}" if kind_e == "scale" else "")
+            key = f"v{c['version'][0]}:{kind_e}" + (f"x{k}" if kind_e == "scale" else "-every-gap" if kind_e == "blank" and k else "")
             lay_by_kind.setdefault(key, [0, 0])
             if verdict == "equal":
                 lay_stats["edits_equal"] += 1
@@ -1448,6 +1477,7 @@ def run(tier, seed, replay=None):
     t0 = time.time()
     v1_res, _, v1_crashed = pooled("v1pre")
     vterms, vkept, vskip = [], [], 0
+    cterms, ckept = [], []
     for i, c in enumerate(v1_cases):
         r = v1_res.get(i)
         if r is None:
@@ -1457,6 +1487,9 @@ def run(tier, seed, replay=None):
             continue
         vterms.append(_v1pre_term(r))
         vkept.append(c)
+        if r.get("comments") is not None:
+            cterms.append(_v1cm_term(r))
+            ckept.append(c)
     v1_disagree = 0
     if okm and vterms:
         bools, err = C.run_cases(PID + "_v1pre", PRE_LAYOUT, vterms, "check_v1", shard=40)
@@ -1469,6 +1502,17 @@ def run(tier, seed, replay=None):
                 c = min(bad, key=lambda x: len(x["content"]))
                 out.add_broken("correspondence:C13-v1-lines",
                                f"{len(bad)} disagreements with get_numbered_lines; smallest ({c['origin']}): {c['content']!r}")
+    if okm and cterms:
+        bools, err = C.run_cases(PID + "_v1cm", PRE_LAYOUT, cterms, "check_v1cm", shard=40)
+        if err:
+            out.add_broken("correspondence:C13-v1-comments(coqc)", err)
+        else:
+            bad = [c for ok, c in zip(bools, ckept) if not ok]
+            v1_disagree += len(bad)
+            if bad:
+                c = min(bad, key=lambda x: len(x["content"]))
+                out.add_broken("correspondence:C13-v1-comments",
+                               f"{len(bad)} disagreements on the pending comment of get_numbered_lines; smallest ({c['origin']}): {c['content']!r}")
     timings["v1pre_s"] = round(time.time() - t0, 1)
     for i, err in v1_crashed:
         out.add_broken("harness:v1pre-worker-crash", err)
@@ -1522,10 +1566,10 @@ def run(tier, seed, replay=None):
             "layout_e2e": lay_stats, "layout_e2e_by_edit[equal,diff]": lay_by_kind,
             "shipped_files": {"v1": len(v1_files), "v2": len(v2_files), "rejected_by_parser_unedited": rejected_shipped},
             "generated_programs_per_language": n_gen,
-            "lexdiff_shapes": lex_shapes, "lexdiff_skipped": lskip, "v1pre_compared": len(vterms), "v1pre_skipped_multiline": vskip,
+            "lexdiff_shapes": lex_shapes, "lexdiff_skipped": lskip, "v1pre_compared": len(vterms), "v1_comment_carry_over_compared": len(cterms), "v1pre_skipped_multiline": vskip,
             "corpus_cases": corpus_n, "timings": timings,
         },
-        "traces_validated_against_impl": len(terms) + len(lterms) + len(vterms),
+        "traces_validated_against_impl": len(terms) + len(lterms) + len(vterms) + len(cterms),
         "correspondence_disagreements": len(inj_disagree) + lex_disagree + v1_disagree,
         "oracle_violations": len(out.findings),
         "hangs": len(h_hangs) + len(lay_hangs),
